@@ -3,7 +3,8 @@ Which versions a reader of an end-to-end C10 scenario may be served (the timing 
 scenario lines of props/C10.py): operations are started in order; an update whose origin pauses stays in flight while the next `j`
 operations are started.  A reader started at position `i` attaches either to the newest version whose update was over before `i`
 (if the cache still has it; otherwise it is a miss and the origin answers with its newest version) or to one created later but
-before `i`.  It is served that one version completely — or cut short, if that version's origin transfer was truncated.
+before `i`.  It is served that one version completely — or cut short, if that version's origin transfer is truncated while the
+reader is attached (the update is still in flight at `i`).
 -/
 namespace SquidModel.Cache.StoreScenario
 
@@ -34,7 +35,7 @@ def stable (cs : List Created) (k i : Nat) : Nat :=
 def readerOutcomes (cs : List Created) (k i : Nat) : List (Nat × Bool) :=
   let st := stable cs k i
   (cs.filter (fun c => c.k == k && decide (st ≤ c.ver))).flatMap fun c =>
-    if c.truncated then [(c.ver, true), (c.ver, false)] else [(c.ver, true)]
+    if c.truncated && decide (i ≤ c.over) then [(c.ver, true), (c.ver, false)] else [(c.ver, true)]
 
 /-- one scenario step: the versions known afterwards and the token alternatives -/
 def stepOp (n : Nat) (cs : List Created) (i : Nat) : Sop → List Created × List String
